@@ -2,6 +2,8 @@
 base strings, known-finding signatures (predicates over a failing case)."""
 
 KIND_NAMES = {
+    1101: 'C11/writer: peerwriter bytes vs Wire.enc_go (+ upload counter)',
+    1102: 'C11/reader: peerreader messages vs Wire.parse',
     701: 'C07/accept_paths: metainfo.NewInfo file paths vs Paths.accept_paths',
     702: 'C07/open_path: FileStorage.Open path vs Paths.open_path',
     703: 'C07/tar: torrent.readData vs Paths.tar_target',
@@ -25,6 +27,11 @@ TRUSTED_COMMON = [
 ]
 
 PROPS = {
+    'C11': {
+        'kinds': {1101: {'quick': 1500, 'thorough': 30000}, 1102: {'quick': 2500, 'thorough': 60000}},
+        'trusted': ['bufio/io.ReadFull deliver the same bytes for every chunking (the reader model works on the whole stream; chunkings are sampled)', 'zeebo/bencode struct encoding of the three extension payloads beyond sampled agreement'],
+        'assumptions': [],
+    },
     'C07': {
         'kinds': {701: {'quick': 3000, 'thorough': 60000}, 702: {'quick': 1500, 'thorough': 20000}, 703: {'quick': 800, 'thorough': 10000}, 704: {'quick': 3000, 'thorough': 60000}},
         'trusted': ['path/filepath, unicode/utf8, strings.TrimSpace, path.Ext beyond sampled agreement with the component-level model', 'the kernel resolves a ..-free, symlink-free relative path below the directory it is joined to'],
